@@ -239,3 +239,5 @@ package massdb_v1
 //@   assert-at call WriteAt#2 then-the-second-element: arg1 == xp && arg2 == (lastresult("FB#1") - doubleStartPoint) * recordSize * 2 + recordSize
 //@   assert-at call WriteAt#3 slot-z-prime-holds-the-first-element-of-its-pair: arg1 == xp && arg2 == (lastresult("FB#2") - doubleStartPoint) * recordSize * 2
 //@   assert-at call WriteAt#4 then-the-second-element: arg1 == x && arg2 == (lastresult("FB#2") - doubleStartPoint) * recordSize * 2 + recordSize
+//@ func (*MassDBV1).prePlotWork
+//@   assert-at join y every-preimage-has-a-slot-inside-the-table: 0 <= y && y < hmA.HashMap.volume
